@@ -409,7 +409,7 @@ class Body:
             return "$%d" % l
         if l == 0:
             return "ret"
-        if depth > 8:
+        if depth > 16:
             return "_"
         sd = self.single_def(l)
         if sd is None:
@@ -476,6 +476,8 @@ class Body:
             return "discr(%s)" % self.canon_place(rv["place"], depth)
         if k == "agg":
             if rv.get("ak") == "adt":
+                if rv.get("variant") in ("Some", "Ok") and len(rv["ops"]) == 1 and rv["adt"].split("::")[-1] in ("Option", "Result"):
+                    return self.canon_op(rv["ops"][0], depth)      # payload-preserving wrappers are transparent
                 return "%s::%s(%s)" % (rv["adt"].split("::")[-1], rv["variant"], ", ".join(self.canon_op(o, depth) for o in rv["ops"]))
             return "(%s)" % ", ".join(self.canon_op(o, depth) for o in rv["ops"])
         if k == "repeat":
@@ -486,6 +488,9 @@ class Body:
         nm = callee_short(t["callee"])
         if nm in self._TRANSPARENT and t["args"]:
             return self.canon_op(t["args"][0], depth)
+        ti = TRANSPARENT_LOCAL.get(callee_path(t["callee"]))
+        if ti is not None and ti < len(t["args"]):
+            return self.canon_op(t["args"][ti], depth)          # crate function that hands its argument's value through
         s = "%s(%s)" % (nm, ", ".join(self.canon_op(a, depth) for a in t["args"]))
         if getattr(self, "_cids", False) and blk is not None:
             s += "@b%d" % blk        # identity of the call site (etrace): two calls of one function are different values
@@ -511,6 +516,39 @@ class Body:
 
 
 _ARITH_RE = None
+# crate functions whose success value is (the payload of) one of their arguments: {fn id: argument index}
+TRANSPARENT_LOCAL = {}
+
+
+def compute_transparent(fns):
+    """A function is value-transparent in argument i when every assignment to its return place is `$i+1` (through
+    Ok/Some wrapping and unwrapping) or an empty / error value.  Computed once per fact set."""
+    import re
+    TRANSPARENT_LOCAL.clear()
+    for fid, fn in fns.items():
+        if fn.get("mir") is None or fn.get("derived"):
+            continue
+        b = body_of(fn)
+        if b is None or b.argc < 1 or b.n > 40:
+            continue
+        rets = []
+        ok = True
+        for blk in b.reach:
+            for s in b.stmts(blk):
+                if s["k"] == "assign" and s["place"]["l"] == 0 and not s["place"]["p"]:
+                    rets.append(b.canon_rv(s["rv"]))
+            t = b.term(blk)
+            if t["k"] == "call" and t.get("dest") and t["dest"]["l"] == 0 and not t["dest"]["p"]:
+                nm = callee_short(t["callee"])
+                if nm.endswith("from_residual"):
+                    continue
+                ok = False
+        if not ok or not rets:
+            continue
+        passed = {r for r in rets if re.match(r"\$\d+$", r)}
+        others = [r for r in rets if r not in passed]
+        if len(passed) == 1 and all(re.match(r"(Option::None\(\)|Result::Err\(|\(\)$)", r) for r in others):
+            TRANSPARENT_LOCAL[fid] = int(list(passed)[0][1:]) - 1
 
 
 def re_match_arith(s):
